@@ -313,9 +313,11 @@ def secure_scalars(S, arr):
 def run_case(case):
     _install_counters()
     CALLS.clear()
+    # option -W / MPYC_MAXWORKERS (read by finfields at call time): worker threads for array square roots
+    os.environ['MPYC_MAXWORKERS'] = str(case.get('workers', 0))
     name, kind = case['op'], case['kind']
     rng = random.Random(case['seed'])
-    ALLOW0[0] = kind != 'fxp'
+    ALLOW0[0] = kind != 'fxp' and not case.get('mix32_64bit')   # zero-size arrays under --mix32-64bit: open finding np_zero_size_mix32_64bit
     plan = (OPS.get(name) or DIRECTED[name])['plan'](rng, kind, case.get('force'))
     m, no_prss = case['m'], case['no_prss']
     res = {'case': case, 'status': 'ok', 'lean': [], 'key': plan.get('key'), 'nontrivial': plan.get('nontrivial', True),
@@ -365,7 +367,8 @@ def run_case(case):
     if m > 1 and rng.random() < 0.25:
         sched = Scheduler(case['seed'], rng.choice(['random', 'lazynet', 'eagernet']))
     try:
-        outs = SimNet(m, None, no_prss=no_prss, seed=case['seed'] & 0xffff, sched=sched, max_steps=3_000_000).run(prog)
+        outs = SimNet(m, None, no_prss=no_prss, seed=case['seed'] & 0xffff, sched=sched, max_steps=3_000_000,
+                      mix32_64bit=bool(case.get('mix32_64bit'))).run(prog)
     except Deadlock as exc:
         return fail(res, 'deadlock', f'run does not terminate: {str(exc)[:300]}')
     except PartyError as exc:
